@@ -302,7 +302,20 @@ type Built struct {
 	Spec  *TxSpec
 	Bytes []byte
 	Hash  []byte
-	SigOK bool // signed by From's key for exactly these fields and the node's chain id
+	SigOK bool       // signed by From's key for exactly these fields and the node's chain id
+	Evm   *EvmEffect // observed effect of the EVM execution (oracle of the model), nil for native transactions
+}
+
+type AcctObs struct {
+	Addr  []byte
+	Bal   string
+	Nonce uint64
+}
+type EvmEffect struct {
+	OK      bool
+	Gas     int64
+	Created []byte
+	Accts   []AcctObs
 }
 
 // Build signs the specification with the named key (the node's own preimage function is what an
